@@ -244,6 +244,12 @@ def ekf_driver_source(defn, *, with_ekf=True, header="gen.h", ns="gen", managed=
     A("  char cmd[64];")
     A("  while (scanf(\"%63s\", cmd) == 1) {")
     A("    std::string c(cmd);")
+    if with_ekf:
+        A("    if (c == \"CFG\") { printf(\"CFG %a %a %a %d\\n\", (double)cpp::Config::max_dt_sec, (double)cpp::Config::innovation_filtering,"
+          " (double)ExtendedKalmanFilter::Tag::max_dt_sec, cpp::Config::common_subexpression_elimination ? 1 : 0); continue; }")
+    else:
+        A("    if (c == \"CFG\") { printf(\"CFG %a %a %a %d\\n\", (double)cpp::Config::max_dt_sec, (double)cpp::Config::innovation_filtering,"
+          " (double)cpp::Config::max_dt_sec, cpp::Config::common_subexpression_elimination ? 1 : 0); continue; }")
     if Kn:
         A("    if (c == \"CAL\") { double v[K]; for (int i = 0; i < K; ++i) v[i] = rd(); CALV = mk_cal(v); printf(\"CAL ok\\n\"); continue; }")
     else:
@@ -425,6 +431,26 @@ class EkfBinary:
     def s_cmd(self, sname, x):
         si = self.sensors.index(sname)
         return f"S {si} {self._vec(x, self.state)}"
+
+    @staticmethod
+    def parse_cfg(toks):
+        return {"max_dt_sec": unhex(toks[1]), "innovation_filtering": unhex(toks[2]), "tag_max_dt_sec": unhex(toks[3]),
+                "cse": bool(int(toks[4]))}
+
+    def check_cfg(self, toks, config):
+        """Generated constants must be exactly the configured values.  -> list of (key, text)"""
+        got = self.parse_cfg(toks)
+        bad = []
+        md = float(config.get("max_dt_sec", 0.1))
+        k = config.get("innovation_filtering", 5.0)
+        kk = float(k) if k else 0.0
+        if got["max_dt_sec"] != md or got["tag_max_dt_sec"] != md:
+            bad.append(("cpp:config-constant:max_dt_sec", f"configured max_dt_sec {md!r}, generated code has {got['max_dt_sec']!r} (Tag: {got['tag_max_dt_sec']!r})"))
+        if got["innovation_filtering"] != kk:
+            bad.append(("cpp:config-constant:innovation_filtering", f"configured innovation_filtering {k!r}, generated code has {got['innovation_filtering']!r}"))
+        if got["cse"] != bool(config.get("common_subexpression_elimination", True)):
+            bad.append(("cpp:config-constant:cse", "generated common_subexpression_elimination flag differs from the configuration"))
+        return bad
 
     def mfi_cmd(self, t0, x, P):
         flat = " ".join(hexf(v) for row in P for v in row)
